@@ -1,8 +1,19 @@
-"""Optional lists, dict-valued fields, weak sets."""
+"""Optional lists, dict-valued fields (scalar or list values), weak sets."""
+import ast
 import z3
 from .core import *   # noqa
 from .base import Outcome, N_, DictLit, DictFld
 from .expr import EmptyList, OptList
+
+
+class DictEntryList:
+    """reference to the list stored under key `k` of a dict field (Dict[K, List[E]])"""
+    __slots__ = ("d", "k", "ety")
+
+    def __init__(self, d, k, ety):
+        self.d = d
+        self.k = k
+        self.ety = ety
 
 
 class ContainerMixin:
@@ -17,27 +28,170 @@ class ContainerMixin:
         if lv is not None:
             self.set_list(st, FldList(obj, key, ety), lv)
 
-    # ---- dict fields: not modelled yet
+    # ---- dict fields
+    # scalar values:  key#dom : Ref -> (K -> Bool)    key#val : Ref -> (K -> V)    key#sum : Ref -> Real (numeric V only)
+    # list values  :  key#dom , key#vala : Ref -> (K -> (Int -> E)) , key#valn : Ref -> (K -> Int)
     def dict_heap_keys(self, key, ty):
-        raise Unsupported("dict field " + key)
+        ks = sort_of(ty[1])
+        out = [(key + "#dom", z3.ArraySort(RefS, z3.ArraySort(ks, z3.BoolSort()))),
+               (key + "#cnt", z3.ArraySort(RefS, z3.IntSort()))]
+        vt = ty[2]
+        if vt[0] == "list":
+            out.append((key + "#vala", z3.ArraySort(RefS, z3.ArraySort(ks, z3.ArraySort(z3.IntSort(), sort_of(vt[1]))))))
+            out.append((key + "#valn", z3.ArraySort(RefS, z3.ArraySort(ks, z3.IntSort()))))
+        else:
+            out.append((key + "#val", z3.ArraySort(RefS, z3.ArraySort(ks, sort_of(vt)))))
+            if vt[0] in ("int", "real"):
+                out.append((key + "#sum", z3.ArraySort(RefS, z3.RealSort())))
+        return out
+
+    def _darr(self, st, d, suffix):
+        ty = ("dict", d.kty, d.vty)
+        for hk, sort in self.dict_heap_keys(d.key, ty):
+            if hk == d.key + suffix:
+                return st.harr(hk, sort), hk
+        raise Unsupported("dict component " + suffix)
+
+    def dict_dom(self, st, d):
+        a, _ = self._darr(st, d, "#dom")
+        return z3.Select(a, d.obj)
 
     def dict_len(self, st, d):
-        raise Unsupported("dict")
+        a, _ = self._darr(st, d, "#cnt")
+        return z3.Select(a, d.obj)
 
     def dict_has(self, st, d, k):
-        raise Unsupported("dict")
+        return z3.Select(self.dict_dom(st, d), coerce(k, d.kty).t)
 
     def dict_get(self, st, d, idx, k):
-        raise Unsupported("dict")
+        kt = coerce(idx, d.kty).t
+        has = z3.Select(self.dict_dom(st, d), kt)
+
+        def found(s):
+            if d.vty[0] == "list":
+                return k(DictEntryList(d, kt, d.vty[1]), s)
+            a, _ = self._darr(s, d, "#val")
+            return k(Val(d.vty, z3.Select(z3.Select(a, d.obj), kt)), s)
+        if st.frame.spec:
+            return found(st)
+        return self.split(st, has, found, lambda s: self.raise_exc(s, "KeyError"), label="haskey")
 
     def dict_set(self, st, d, idx, v):
-        raise Unsupported("dict")
+        kt = coerce(idx, d.kty).t
+        dom, dk = self._darr(st, d, "#dom")
+        cnt, ck = self._darr(st, d, "#cnt")
+        had = z3.Select(z3.Select(dom, d.obj), kt)
+        st.hset(dk, z3.Store(dom, d.obj, z3.Store(z3.Select(dom, d.obj), kt, z3.BoolVal(True))))
+        st.hset(ck, z3.Store(cnt, d.obj, z3.Select(cnt, d.obj) + z3.If(had, 0, 1)))
+        if d.vty[0] == "list":
+            lv = self.empty_list(d.vty[1]) if isinstance(v, EmptyList) else self.as_lval(st, v, d.vty[1])
+            va, vak = self._darr(st, d, "#vala")
+            vn, vnk = self._darr(st, d, "#valn")
+            st.hset(vak, z3.Store(va, d.obj, z3.Store(z3.Select(va, d.obj), kt, lv.arr)))
+            st.hset(vnk, z3.Store(vn, d.obj, z3.Store(z3.Select(vn, d.obj), kt, lv.n)))
+            return
+        val, vk = self._darr(st, d, "#val")
+        nv = coerce(v, d.vty).t
+        oldv = z3.Select(z3.Select(val, d.obj), kt)
+        st.hset(vk, z3.Store(val, d.obj, z3.Store(z3.Select(val, d.obj), kt, nv)))
+        if d.vty[0] in ("int", "real"):
+            sm, sk = self._darr(st, d, "#sum")
+            old_c = z3.If(had, oldv if d.vty[0] == "real" else z3.ToReal(oldv), z3.RealVal(0))
+            new_c = nv if d.vty[0] == "real" else z3.ToReal(nv)
+            st.hset(sk, z3.Store(sm, d.obj, z3.Select(sm, d.obj) - old_c + new_c))
 
     def dict_del(self, st, d, idx):
-        raise Unsupported("dict")
+        kt = coerce(idx, d.kty).t
+        dom, dk = self._darr(st, d, "#dom")
+        has = z3.Select(z3.Select(dom, d.obj), kt)
+
+        def do(s):
+            dom2, _ = self._darr(s, d, "#dom")
+            cnt, ck = self._darr(s, d, "#cnt")
+            s.hset(dk, z3.Store(dom2, d.obj, z3.Store(z3.Select(dom2, d.obj), kt, z3.BoolVal(False))))
+            s.hset(ck, z3.Store(cnt, d.obj, z3.Select(cnt, d.obj) - 1))
+            if d.vty[0] in ("int", "real"):
+                val, _vk = self._darr(s, d, "#val")
+                sm, sk = self._darr(s, d, "#sum")
+                oldv = z3.Select(z3.Select(val, d.obj), kt)
+                s.hset(sk, z3.Store(sm, d.obj, z3.Select(sm, d.obj) - (oldv if d.vty[0] == "real" else z3.ToReal(oldv))))
+            return [(N_, s)]
+        return self.split(st, has, do, lambda s: self.raise_exc(s, "KeyError"), label="haskey")
 
     def dict_clear(self, st, d):
-        raise Unsupported("dict")
+        dom, dk = self._darr(st, d, "#dom")
+        cnt, ck = self._darr(st, d, "#cnt")
+        ks = sort_of(d.kty)
+        st.hset(dk, z3.Store(dom, d.obj, z3.K(ks, z3.BoolVal(False))))
+        st.hset(ck, z3.Store(cnt, d.obj, z3.IntVal(0)))
+        if d.vty[0] in ("int", "real"):
+            sm, sk = self._darr(st, d, "#sum")
+            st.hset(sk, z3.Store(sm, d.obj, z3.RealVal(0)))
 
     def dict_method(self, recv, m, args, kwargs, st, k):
+        if m == "values":
+            from .flow import DictValues
+            return k(DictValues(recv), st)
         raise Unsupported("dict method " + m)
+
+    def dict_sum_values(self, st, d):
+        if d.vty[0] not in ("int", "real"):
+            raise Unsupported("sum over non-numeric dict values")
+        sm, _ = self._darr(st, d, "#sum")
+        total = z3.Select(sm, d.obj)
+        # trusted arithmetic lemma about finite sums: if every stored value is >= 0, the sum is >= 0 and >= every member
+        val, _v = self._darr(st, d, "#val")
+        dom = self.dict_dom(st, d)
+        vals = z3.Select(val, d.obj)
+        j = z3.Const("j!sum", sort_of(d.kty))
+        kk = z3.Const("k!sum", sort_of(d.kty))
+        conv = (lambda t: t) if d.vty[0] == "real" else z3.ToReal
+        allpos = z3.ForAll([j], z3.Implies(z3.Select(dom, j), conv(z3.Select(vals, j)) >= 0))
+        concl = z3.And(total >= 0, z3.ForAll([kk], z3.Implies(z3.Select(dom, kk), total >= conv(z3.Select(vals, kk)))))
+        self.assumptions_used.add("arithmetic lemma: a finite sum of non-negative values is >= 0 and >= each of its members")
+        lem = z3.Implies(allpos, concl)
+        seen = st.hs.__dict__.setdefault("_sum_lemma_ids", set())
+        if lem.get_id() not in seen:
+            seen.add(lem.get_id())
+            st.hs.axioms.append(lem)       # instance of the lemma for this (domain, values, sum) triple
+        return Val(REAL, total)
+
+    def dict_values_list(self, st, dv):
+        raise Unsupported("iteration over dict values (only `for x in d.values(): x.append(e)` is summarised)")
+
+    def dict_append_all(self, st, d, item):
+        """for buf in d.values(): buf.append(item)   -- every registered list gets the item at its end"""
+        if d.vty[0] != "list":
+            raise Unsupported("append to non-list dict values")
+        ety = d.vty[1]
+        x = coerce(item, ety).t
+        va, vak = self._darr(st, d, "#vala")
+        vn, vnk = self._darr(st, d, "#valn")
+        dom = self.dict_dom(st, d)
+        kk = z3.Const("k!da", sort_of(d.kty))
+        cur_a = z3.Select(va, d.obj)
+        cur_n = z3.Select(vn, d.obj)
+        new_a = z3.Lambda([kk], z3.If(z3.Select(dom, kk), z3.Store(z3.Select(cur_a, kk), z3.Select(cur_n, kk), x), z3.Select(cur_a, kk)))
+        new_n = z3.Lambda([kk], z3.If(z3.Select(dom, kk), z3.Select(cur_n, kk) + 1, z3.Select(cur_n, kk)))
+        st.hset(vak, z3.Store(va, d.obj, new_a))
+        st.hset(vnk, z3.Store(vn, d.obj, new_n))
+
+    # ---- DictEntryList as a list reference
+    def get_list(self, st, lv):
+        if isinstance(lv, DictEntryList):
+            va, _ = self._darr(st, lv.d, "#vala")
+            vn, _ = self._darr(st, lv.d, "#valn")
+            return LVal(lv.ety, z3.Select(z3.Select(va, lv.d.obj), lv.k), z3.Select(z3.Select(vn, lv.d.obj), lv.k))
+        return super().get_list(st, lv)
+
+    def set_list(self, st, ref, lv):
+        if isinstance(ref, DictEntryList):
+            va, vak = self._darr(st, ref.d, "#vala")
+            vn, vnk = self._darr(st, ref.d, "#valn")
+            st.hset(vak, z3.Store(va, ref.d.obj, z3.Store(z3.Select(va, ref.d.obj), ref.k, lv.arr)))
+            st.hset(vnk, z3.Store(vn, ref.d.obj, z3.Store(z3.Select(vn, ref.d.obj), ref.k, lv.n)))
+            return
+        return super().set_list(st, ref, lv)
+
+    def is_listlike(self, v):
+        return isinstance(v, DictEntryList) or super().is_listlike(v)
